@@ -836,6 +836,7 @@ func verifGenVariant(rnd *verifutil.Rand, label, compr, kind string) *verifLayer
 		nm := someFile()
 		if nm == "" {
 			nm = "nothing"
+			kind = "hardlink-missing" // nothing to point forward at: the target is simply missing
 		}
 		g.insertFront(verifEnt{Name: "hl-forward", Type: "hardlink", LinkName: nm})
 	case "chunk-first":
@@ -1066,6 +1067,21 @@ func verifGenBuilder(rnd *verifutil.Rand, label string) (*verifLayer, error) {
 		opts = append(opts, estargz.WithAllowPrioritizeNotFound(&missed))
 		optDesc = append(optDesc, fmt.Sprintf("prio=%d", len(pr)))
 	}
+	l, err := verifBuilderLayer(label, tarBytes, comp, compr, opts, files)
+	if err != nil {
+		return nil, err
+	}
+	var fs []string
+	for k := range g.feat {
+		fs = append(fs, k)
+	}
+	sort.Strings(fs)
+	l.label += " opts=" + strings.Join(optDesc, ",") + " feat=" + strings.Join(fs, "+")
+	return l, nil
+}
+
+// verifBuilderLayer runs the real builder on a tar and re-reads the TOC from the blob.
+func verifBuilderLayer(label string, tarBytes []byte, comp tutil.Compression, compr string, opts []estargz.Option, files map[string][]byte) (*verifLayer, error) {
 	rc, err := estargz.Build(io.NewSectionReader(bytes.NewReader(tarBytes), 0, int64(len(tarBytes))), opts...)
 	if err != nil {
 		return nil, fmt.Errorf("build: %w", err)
@@ -1095,13 +1111,49 @@ func verifGenBuilder(rnd *verifutil.Rand, label string) (*verifLayer, error) {
 	if err := verifReadTOC(l); err != nil {
 		return nil, err
 	}
-	var fs []string
-	for k := range g.feat {
-		fs = append(fs, k)
-	}
-	sort.Strings(fs)
-	l.label += " opts=" + strings.Join(optDesc, ",") + " feat=" + strings.Join(fs, "+")
 	return l, nil
+}
+
+// verifBuilderScenarios: fixed tars through the real builder; the inputs of the candidate findings
+// that only builder-made blobs show.
+func verifBuilderScenarios() ([]*verifLayer, error) {
+	var ls []*verifLayer
+	content := bytes.Repeat([]byte("0123456789"), 10)
+	// two prioritized files (the second one empty) + min-chunk-size: the first stream starts at blob
+	// offset 0 and the empty regular file (Offset 0 by omission) follows it in the TOC
+	{
+		tents := []verifTarEnt{
+			{h: tar.Header{Typeflag: tar.TypeReg, Name: "first", Size: int64(len(content)), Mode: 0644}, data: content},
+			{h: tar.Header{Typeflag: tar.TypeReg, Name: "empty", Size: 0, Mode: 0644}},
+			{h: tar.Header{Typeflag: tar.TypeReg, Name: "later", Size: int64(len(content)), Mode: 0644}, data: content},
+		}
+		comp := tutil.GzipCompressionWithLevel(gzip.BestSpeed)()
+		opts := []estargz.Option{estargz.WithCompression(comp), estargz.WithMinChunkSize(100000), estargz.WithPrioritizedFiles([]string{"first", "empty"})}
+		l, err := verifBuilderLayer("builder-stream-at-offset-0 opts=minchunk=100000,prio=2", verifBuildTar(tents), comp, "gzip", opts,
+			map[string][]byte{"first": content, "empty": {}, "later": content})
+		if err != nil {
+			return nil, err
+		}
+		ls = append(ls, l)
+	}
+	// chunk-size below min-chunk-size: several chunks of one file in one stream
+	{
+		big := bytes.Repeat([]byte("abcdefghij"), 500)
+		tents := []verifTarEnt{
+			{h: tar.Header{Typeflag: tar.TypeDir, Name: "d/", Mode: 0755}},
+			{h: tar.Header{Typeflag: tar.TypeReg, Name: "d/big", Size: int64(len(big)), Mode: 0644}, data: big},
+			{h: tar.Header{Typeflag: tar.TypeReg, Name: "small", Size: int64(len(content)), Mode: 0644}, data: content},
+		}
+		comp := tutil.GzipCompressionWithLevel(gzip.BestSpeed)()
+		opts := []estargz.Option{estargz.WithCompression(comp), estargz.WithChunkSize(1000), estargz.WithMinChunkSize(8000)}
+		l, err := verifBuilderLayer("builder-chunks-share-stream opts=chunk=1000,minchunk=8000", verifBuildTar(tents), comp, "gzip", opts,
+			map[string][]byte{"d/big": big, "small": content})
+		if err != nil {
+			return nil, err
+		}
+		ls = append(ls, l)
+	}
+	return ls, nil
 }
 
 type verifZstdDecomp struct{ *zstdchunked.Decompressor }
